@@ -134,7 +134,9 @@ class TBRDiagnostics(object):
       raise ValueError('Both control and treatment group ids must be present'
                        ' in the data')
     new_group = group.map(group_map, na_action='ignore')
-    data.loc[:, self._df_names.group] = new_group
+    # Replace the column (assigning the string labels into the existing numeric
+    # column with .loc is rejected by recent versions of pandas).
+    data[self._df_names.group] = new_group
 
     self._analysis_data = data.pivot_table(index=columns[0:2],
                                            columns=columns[2],
